@@ -25,7 +25,7 @@ def gen_cases(tier, seed):
         for a in nodes:
             for b in nodes:
                 k += 1
-                cases.append({"forest": f, "a": [a[0], a[1]], "b": [b[0], b[1]], "cls": ["any", "light", "mixin"][k % 3],
+                cases.append({"forest": f, "a": [a[0], a[1]], "b": [b[0], b[1]], "cls": ["any", "light", "mixin", "symmix"][k % 4],
                               "how": "direct" if k % 5 else "history", "seed": k})
     nexh = len(cases)
     nrand = 1500 if tier == "quick" else 15000
@@ -33,7 +33,7 @@ def gen_cases(tier, seed):
         f = [gen.label_preorder(gen.random_shape(rng, rng.randint(1, 10)), 100 * j) for j in range(rng.randint(1, 2))]
         nodes = [(j, p) for j, t in enumerate(f) for p, _ in gen.subtrees(t)]
         a, b = rng.choice(nodes), rng.choice(nodes)
-        cases.append({"forest": f, "a": [a[0], a[1]], "b": [b[0], b[1]], "cls": rng.choice(["any", "light", "mixin"]),
+        cases.append({"forest": f, "a": [a[0], a[1]], "b": [b[0], b[1]], "cls": rng.choice(["any", "light", "mixin", "symmix"]),
                       "how": rng.choice(["direct", "history"]), "seed": i})
     gen.sprinkle_adv(cases)
     meta = {"rule": "every ordered forest with <= %d nodes x every ordered pair of nodes (same tree and different trees); "
